@@ -93,6 +93,7 @@ void harness(void)
   S_b_enabled = 0;       /* from here on the harness only inspects / quiesces */
 
   VP_ASSERT(vp_lock_depth == 0, "channel lock released by every thread");
+  S_check_pending_unchanged();
   VP_ASSERT(st == ARES_SUCCESS || st == ARES_ENOMEM || st == ARES_ESERVFAIL, "ares_reinit reports success or the spawn failure");
 #if B_OP == 1
   if (S_b_state == 2) {
